@@ -126,6 +126,11 @@ def run_case(op, xs, ks, sizes, params):
                 if len(got) == 0:
                     return {'batch': bi, 'got': 'empty result', 'pandas': repr(want)}
                 got = got.iloc[-1]
+            if op.get('values_only_last'):
+                gx, wx = list(got['x'].values), list(want['x'].values)
+                if len(gx) != len(wx) or not all(eq(a, b) for a, b in zip(gx, wx)):
+                    return {'batch': bi, 'got': repr(gx)[:300], 'pandas': repr(wx)[:300]}
+                continue
             if op.get('present_only'):
                 # every value present in the (window of the) data is reported with its exact statistic; entries for values
                 # that are not present may be missing or zero (the property does not ask for more)
@@ -227,6 +232,16 @@ def ops_for(pid):
             return getattr(w.groupby(w.k.values).x, name)()
         return {'name': "window(n=%d).groupby(<stream of numpy arrays>).x.%s" % (n, name), 'kind': P, 'index': 'int',
                 'build': lambda s, p: getattr(s.window(n=n).groupby(s.k.map_partitions(np.asarray, s.k)).x, name)(), 'oracle': oracle}
+
+    def win_full_local(n):
+        # window(n).full() with per-batch RangeIndex: the window is the last n ROWS whatever their labels
+        return {'name': 'window(n=%d).full() [per-batch RangeIndex]' % n, 'kind': P, 'index': 'int', 'local_index': True, 'values_only_last': True,
+                'build': lambda s, p: s.window(n=n).full(), 'oracle': lambda d, p: d.iloc[-n:]}
+
+    def wingb_intlabels(name, n):
+        return {'name': "int-labelled frame: window(n=%d).groupby(2)[0].%s" % (n, name), 'kind': P, 'index': 'int', 'int_labels': True,
+                'build': lambda s, p: getattr(s.window(n=n).groupby(2)[0], name)(),
+                'oracle': lambda d, p: getattr(d.iloc[-n:].groupby(2)[0], name)()}
 
     def gbd(name, ddof):
         return {'name': "groupby('k').x.%s(ddof=%d)" % (name, ddof), 'kind': P, 'index': 'int',
@@ -367,7 +382,7 @@ def ops_for(pid):
         return [win('sum', 2), win('mean', 3), win('count', 1), win('var', 3), win('std', 2), win('size', 2),
                 wint('sum', 2), wint('mean', 1), wingb('sum', 2), wingb('mean', 3), wingb('count', 2), wingb('size', 3),
                 wind('var', 3, 0), wind('std', 3, 0), wingbd('var', 3, 0), wingbd('std', 2, 0), vc(1), vc(3),
-                wingb_array('sum', 2), wingb_array('count', 3)]
+                wingb_array('sum', 2), wingb_array('count', 3), win_full_local(4), win_full_local(2), wingb_intlabels('sum', 3)]
     if pid == 'C11':
         return [roll('sum', 2), roll('mean', 3), roll('max', 1), roll('count', 3), roll_t('sum', 2), roll_t('mean', 3),
                 cumf('cumsum'), cumf('cummax'), cum_local('cumsum'), cum_local('cummin'), cum('cumsum'), cum('cumprod'), cum('cummax'),
